@@ -9,13 +9,15 @@ Record dst := mkD {
   seen : list Z;                 (* _spa_identifiers *)
   spas : list reply;             (* _spas, in discovery order *)
   found : bool;                  (* _has_found_spa *)
+  pending : bool;                (* _async_on_discovered is awaiting the client's handler for LOCATING_DISCOVERED_SPA and will set _has_found_spa when it returns *)
   finished : option Z            (* time at which discover() left its loop (transport closed, LOC tasks cancelled) *)
 }.
 Record cfg := mkCfg { f_id : option Z; f_addr : bool; t_initial : Z; t_timeout : Z }.
 
 Inductive label :=
 | Arrive (r : reply)             (* datagram_received *)
-| Consume                        (* the hello consumer's poll finds a head: pop + _async_on_discovered *)
+| Consume                        (* the hello consumer's poll finds a head: pop + _async_on_discovered up to the client's handler *)
+| HandlerDone                    (* the client's handler for LOCATING_DISCOVERED_SPA has returned: _has_found_spa is set if a spa was asked for *)
 | MainPoll (age : Z).            (* one evaluation of the while condition / body of discover() *)
 
 Definition mem (x : Z) (l : list Z) : bool := existsb (Z.eqb x) l.
@@ -24,8 +26,8 @@ Definition on_discovered (c : cfg) (s : dst) (r : reply) : dst :=
   if mem (r_id r) (seen s) then s
   else match f_id c with
        | Some want => if negb (want =? r_id r) then s
-                      else mkD (queue s) (seen s ++ [r_id r]) (spas s ++ [r]) true (finished s)
-       | None => mkD (queue s) (seen s ++ [r_id r]) (spas s ++ [r]) (found s || f_addr c) (finished s)
+                      else mkD (queue s) (seen s ++ [r_id r]) (spas s ++ [r]) (found s) true (finished s)
+       | None => mkD (queue s) (seen s ++ [r_id r]) (spas s ++ [r]) (found s) (pending s || f_addr c) (finished s)
        end.
 
 Definition step (c : cfg) (s : dst) (l : label) : dst :=
@@ -33,17 +35,18 @@ Definition step (c : cfg) (s : dst) (l : label) : dst :=
   | Some _ => s                                   (* endpoint closed, tasks cancelled: nothing has any effect *)
   | None =>
       match l with
-      | Arrive r => mkD (queue s ++ [r]) (seen s) (spas s) (found s) None
+      | Arrive r => mkD (queue s ++ [r]) (seen s) (spas s) (found s) (pending s) None
       | Consume => match queue s with
                    | [] => s
-                   | r :: q => on_discovered c (mkD q (seen s) (spas s) (found s) None) r
+                   | r :: q => on_discovered c (mkD q (seen s) (spas s) (found s) (pending s) None) r
                    end
+      | HandlerDone => mkD (queue s) (seen s) (spas s) (found s || pending s) false None
       | MainPoll age =>
-          if negb (age <? t_timeout c) then mkD (queue s) (seen s) (spas s) (found s) (Some age)
-          else if (t_initial c <? age) && negb (Nat.eqb (List.length (spas s)) 0) then mkD (queue s) (seen s) (spas s) (found s) (Some age)
-          else if found s then mkD (queue s) (seen s) (spas s) (found s) (Some age)
+          if negb (age <? t_timeout c) then mkD (queue s) (seen s) (spas s) (found s) (pending s) (Some age)
+          else if (t_initial c <? age) && negb (Nat.eqb (List.length (spas s)) 0) then mkD (queue s) (seen s) (spas s) (found s) (pending s) (Some age)
+          else if found s then mkD (queue s) (seen s) (spas s) (found s) (pending s) (Some age)
           else s
       end
   end.
 Definition run (c : cfg) (s : dst) (ls : list label) : dst := fold_left (step c) ls s.
-Definition init : dst := mkD [] [] [] false None.
+Definition init : dst := mkD [] [] [] false false None.
